@@ -232,3 +232,25 @@ Definition eff_step (kind : eff_kind) (s : estate) (e : ev) (x : ans) : option e
       else Some s
   | _ => Some s
   end.
+
+(* ---------------- C04: Like / Announce touch only owned objects, putting the activity id at the front of likes / shares ---------------- *)
+From Verif Require Import Pub.Fed.
+Definition own_step (cp id : string) (s : estate) (e : ev) (x : ans) : option estate :=
+  match e with
+  | EDb op args =>
+      if String.eqb op "Owns" then Some {| e_owns := match x with ABool b => Some b | _ => None end; e_got := None |}
+      else if String.eqb op "Get" then Some {| e_owns := e_owns s; e_got := match x with AJson j => Some j | _ => None end |}
+      else if String.eqb op "Update" then
+        match args, e_owns s, e_got s with
+        | [v], Some true, Some t =>
+            match prepend_on cp id t with
+            | Ok want => if jeqb v (canon want) then Some e0 else None
+            | _ => None
+            end
+        | _, _, _ => None
+        end
+      else if String.eqb op "Create" || String.eqb op "Delete" || String.eqb op "SetOutbox" || String.eqb op "SetInbox" then None
+      else Some s
+  | EBatchDeliver _ _ => None
+  | _ => Some s
+  end.
